@@ -475,7 +475,12 @@ class XMLReader(object):
                     # Special handling of values;
                     curr_text = node.text.strip() if node.text else None
                     if tag == "values" and curr_text:
-                        content = from_csv(node.text)
+                        try:
+                            content = from_csv(node.text)
+                        except csv.Error as exc:
+                            # e.g. a bare carriage return inside a list of values
+                            self.error("Invalid list of values: %s" % exc, node)
+                            content = [curr_text]
                         arguments[tag] = content
                     # Special handling of cardinality
                     elif tag.endswith("_cardinality") and curr_text:
